@@ -21,7 +21,7 @@ NJ_ASSUME = ['specs/ninja.py (ninja lexing of values and paths) is written from 
              'available in the sandbox, so this spec is NOT tool-validated']
 
 TABLE['C02'] = {
-    'modules': ['contracts.ninja'],
+    'modules': ['contracts.ninja', 'contracts.bounded_cmd'],
     'level': 'proof',
     'assumptions': SH_ASSUME + NJ_ASSUME,
     'trusted_base': ['PyVC (pyvc/*.py): symbolic interpreter, fold normaliser, induction schemas', 'z3 5.1.0',
@@ -39,7 +39,7 @@ MK_ASSUME = ['specs/make.py (GNU make reading of recipe lines, := values, target
              'run-length transducer of pyvc/models.py f2_fold (cross-checked against CPython re on every run)']
 
 TABLE['C01'] = {
-    'modules': ['contracts.make'],
+    'modules': ['contracts.make', 'contracts.bounded_cmd'],
     'level': 'proof',
     'assumptions': SH_ASSUME + MK_ASSUME,
     'trusted_base': ['PyVC (pyvc/*.py)', 'z3 5.1.0', 'specs/sh.py', 'specs/make.py'],
@@ -52,7 +52,7 @@ TABLE['C01'] = {
 }
 
 TABLE['C04'] = {
-    'modules': ['contracts.make', 'contracts.ninja'],
+    'modules': ['contracts.make', 'contracts.ninja', 'contracts.bounded_cmd'],
     'level': 'proof',
     'assumptions': SH_ASSUME + MK_ASSUME + NJ_ASSUME + [
         'representable Make names: printable ASCII without backslash, * ? [ ] ; = tab, not starting with ~, not ending in blank or & (the property\'s own exclusions; no escaping accepted by GNU make exists for them)',
